@@ -15,13 +15,14 @@ const (
 	EvPoint = iota // statement point: Site = point id
 	EvCmp          // early-exit comparison: A,B = operand lengths, Leak = index of first mismatch
 	EvCT           // constant-time comparison: A,B = operand lengths, no leak value
+	EvSC           // the right operand of a short-circuit && / || is about to be evaluated
 )
 
 // Event is one trace entry.
 type Event struct {
-	Kind          uint8
-	Site          int32
-	A, B, Leak    int32
+	Kind       uint8
+	Site       int32
+	A, B, Leak int32
 }
 
 // BudgetExceeded is the panic value raised when the statement budget is exhausted.
@@ -108,6 +109,23 @@ func ctEvent(site int, kind string, la, lb int) {
 		note(site, kind)
 		Trace = append(Trace, Event{Kind: EvCT, Site: int32(site), A: int32(la), B: int32(lb)})
 	}
+}
+
+// SC is spliced between the operands of && (as `a && verifrt.SC(id) && b`) and of || (as
+// `a || !verifrt.SC(id) || b`): it records that the right operand is evaluated and changes nothing.
+func SC(site int) bool {
+	Steps++
+	if Tracing {
+		Trace = append(Trace, Event{Kind: EvSC, Site: int32(site)})
+	}
+	return true
+}
+
+// CTV wraps a call of a crypto/subtle primitive working on single values (ConstantTimeByteEq, ConstantTimeEq,
+// ConstantTimeSelect, ConstantTimeLessOrEq): the call shows up in the trace, without a leak value.
+func CTV[T any](site int, kind string, v T) T {
+	ctEvent(site, kind, 1, 1)
+	return v
 }
 
 // EqS is `a == b` on strings.
